@@ -42,6 +42,8 @@ FIXTURES = [
     ("c04_bad_internal_no_update", "bad", ["P1"]),
     ("c04_bad_stride_other_size", "bad", ["P1"]),
     ("c04_bad_no_clear", "bad", ["P2"]),
+    ("c04_good_helper_accumulate", "good", []),
+    ("c04_bad_helper_overwrites", "bad", ["P3"]),
     ("c04_bad_into_overwrites", "bad", ["P3"]),
     ("c04_bad_i32_fastpath", "bad", ["P6"]),
     ("c04_good_i64_fastpath", "good", []),
@@ -68,6 +70,8 @@ def check(col, prog, tier, profile, fixture=None):
     fn = {}
     for nm in ("new", "update_n", "fft_internal", "fft", "fft_into", "fft_inv", "fft_inv_into", "multiply", "multiply_into"):
         fn[nm] = util.need_body(crate, "FFT::<F>::%s" % nm)
+    helpers = util.private_helpers(crate, "FFT", exclude=list(fn.values()))
+    A = util.analyser(helpers)
     col.rule("P1" + sfx, "plan tables are read only in state SIZED(k); strides divide by the sized k", floor=5)
     col.rule("P2" + sfx, "scratch buffers are cleared and zero-resized before use", floor=3)
     col.rule("P3" + sfx, "*_into only add into the caller's destination; wrappers pass zeroed destinations", floor=7)
@@ -94,7 +98,7 @@ def check(col, prog, tier, profile, fixture=None):
     # ---------------- P1
     for nm in ("fft_internal", "fft", "fft_into", "fft_inv", "fft_inv_into", "multiply", "multiply_into"):
         b = fn[nm]
-        I = util.analyse(b)
+        I = A(b)
         selfp = ("deref", ("param", 1, I.names.get(1)))
         reads = 0
         bad = None
@@ -148,7 +152,7 @@ def check(col, prog, tier, profile, fixture=None):
             col.ok("P1" + sfx, b.loc(), "%s|stride-divisor" % fk(b), "stride = max_n / k with k the sized argument")
     # fft_internal sizes first
     b = fn["fft_internal"]
-    I = util.analyse(b)
+    I = A(b)
     okfirst = True
     for st in I.final_states + [s for l in I.backedge_states.values() for s in l]:
         calls = [e for e in st.event_list() if e.kind == "call"]
@@ -162,7 +166,7 @@ def check(col, prog, tier, profile, fixture=None):
     # ---------------- P2
     for nm in ("fft_into", "fft_inv_into", "multiply_into"):
         b = fn[nm]
-        I = util.analyse(b)
+        I = A(b)
         verdict = None
         for st in I.final_states + [s for l in I.backedge_states.values() for s in l]:
             cleared = {}
@@ -205,7 +209,7 @@ def check(col, prog, tier, profile, fixture=None):
     nsites = 0
     for nm, respos in into.items():
         b = fn[nm]
-        I = util.analyse(b)
+        I = A(b)
         resp = ("deref", ("param", respos, I.names.get(respos)))
         # direct stores through res
         for st in I.final_states:
@@ -221,7 +225,7 @@ def check(col, prog, tier, profile, fixture=None):
                     else:
                         col.violation("P3" + sfx, key, b.loc(ev.bb), "%s overwrites the caller's destination (%s := %s) instead of adding to it" % (b.path, tstr(ev.place), tstr(ev.val)))
         # closures that receive the destination elements by &mut
-        for cb in crate.closures_of(b):
+        for cb in util.closures_with_helpers(crate, b, helpers):
             tys = [cb.locals[i]["ty"] for i in range(2, cb.arg_count + 1)]
             if not any(t.startswith("(&mut") or t.startswith("&mut") for t in tys):
                 continue
@@ -247,7 +251,7 @@ def check(col, prog, tier, profile, fixture=None):
     # wrappers
     for nm, tgt, argpos in (("fft", "fft_into", 3), ("fft_inv", "fft_inv_into", 2), ("multiply", "multiply_into", 3)):
         b = fn[nm]
-        I = util.analyse(b)
+        I = A(b)
         ok = False
         for st in I.final_states:
             for ev in st.event_list():
@@ -274,6 +278,7 @@ def check(col, prog, tier, profile, fixture=None):
 
     # ---------------- P4
     writers = set()
+    may_write = util.allowed_writers(crate, {"new", "update_n"}, helpers)
     for b in crate.bodies:
         imp = crate.impl_of(b)
         if imp is not None and imp.get("derived"):
@@ -292,11 +297,11 @@ def check(col, prog, tier, profile, fixture=None):
                     if e[0] == "field" and e[2] in ("w", "reversed") and ("Vec<" in (e[3] or "")):
                         root = b if not b.is_closure else crate.by_key.get(b.parent, b)
                         writers.add(root.name)
-                        if root.name not in ("new", "update_n"):
+                        if root.name not in may_write:
                             col.violation("P4" + sfx, "%s|writes-plan" % fk(b), b.loc(bb, idx), "%s mutably borrows the plan table `%s`; only new/update_n may write the plan" % (b.path, e[2]))
     col.ok("P4" + sfx, "-", "writers=%s" % ",".join(sorted(writers)), "plan tables written only in %s" % sorted(writers))
     b = fn["update_n"]
-    I = util.analyse(b)
+    I = A(b)
     n = ("param", 2, I.names.get(2))
     early = False
     pow2 = False
@@ -334,7 +339,7 @@ def check(col, prog, tier, profile, fixture=None):
 
     # ---------------- P5
     b = fn["multiply"]
-    I = util.analyse(b)
+    I = A(b)
     a, bb_ = ("param", 2, I.names.get(2)), ("param", 3, I.names.get(3))
     nonempty = 0
     for st in I.final_states:
@@ -372,7 +377,7 @@ def check(col, prog, tier, profile, fixture=None):
     if nonempty == 0:
         col.violation("P5" + sfx, "%s|no-compute-path" % fk(b), b.loc(), "multiply never calls multiply_into")
     b = fn["multiply_into"]
-    I = util.analyse(b)
+    I = A(b)
     tk = False
     for st in I.final_states:
         for e in st.event_list():
